@@ -161,6 +161,12 @@ class Overlay:
     def create(self, modules, dump_body, gen_src, access=None):
         if self.root.exists():
             shutil.rmtree(self.root, ignore_errors=True)
+        # scratch copies left behind by runs that were killed (their process is gone) are removed: disk is limited
+        if SCRATCH_ROOT.exists() and not os.environ.get("VERIF_KEEP"):
+            for d in SCRATCH_ROOT.iterdir():
+                pid = d.name.rsplit("-", 1)[-1]
+                if pid.isdigit() and not Path(f"/proc/{pid}").exists():
+                    shutil.rmtree(d, ignore_errors=True)
         self.tree.mkdir(parents=True)
         rc, so, _ = sh(["rsync", "-a", "--exclude", "target", "--exclude", ".git", f"{REPO}/", f"{self.tree}/"])
         if rc != 0:
